@@ -26,7 +26,7 @@ RULE = (
 )
 CLASSES = [
     "ambiguous_prefix_len1", "ambiguous_prefix_len2", "ambiguous_prefix_len3+", "unique_prefix", "reinit",
-    "mutated_after_open", "fresh_process", "uninitialised_lookup", "typed_values",
+    "mutated_after_open", "fresh_process", "uninitialised_lookup", "typed_values", "lost_spfile_reinit", "symlinked_job_dir",
 ]
 ASSUMPTIONS = [
     "'unknown id raises KeyError' is asserted only in a fresh project without a persistent cache file",
@@ -76,7 +76,7 @@ def job_sets(draw):
     return sps[:12] or [{"k": 0}]
 
 
-OPS = ["open", "access_sp", "mutate_caller", "init", "init", "reinit", "fresh", "lookup_uninit"]
+OPS = ["open", "access_sp", "mutate_caller", "init", "init", "reinit", "fresh", "lookup_uninit", "lost_spfile_reinit", "relocate_symlink"]
 
 
 @st.composite
@@ -128,6 +128,8 @@ def run_case(case, ctx):
         return fsutil.snapshot(root, with_mtime=True)
 
     def stat_sp(i):
+        if not os.path.isfile(os.path.join(root, "workspace", ids[i], "signac_statepoint.json")):
+            return None
         st_ = os.stat(os.path.join(root, "workspace", ids[i], "signac_statepoint.json"))
         with open(os.path.join(root, "workspace", ids[i], "signac_statepoint.json"), "rb") as f:
             return (st_.st_ino, st_.st_mtime_ns, f.read())
@@ -192,6 +194,8 @@ def run_case(case, ctx):
                 continue
             try:
                 cur = stat_sp(i)
+                if cur is None:
+                    raise OSError("no state point file after init()")
                 parsed = json.loads(cur[2].decode())
                 if oracle.canon(parsed) != oracle.canon(sps[i]):
                     mms.append(Mismatch("file_exact", f"state point file of {sps[i]!r} parses to {parsed!r}"))
@@ -203,6 +207,33 @@ def run_case(case, ctx):
                 if prev != cur:
                     mms.append(Mismatch("reinit_rewrites", f"second init() rewrote a valid state point file ({sps[i]!r}): inode/mtime/bytes changed"))
             check_handle(i, "after init")
+        elif name == "lost_spfile_reinit":
+            # the state point file disappears behind a live handle (the directory stays): init() through
+            # that same handle must put back a file that parses to exactly the state point
+            job, _ = get_handle(i)
+            if i in inited:
+                fn = os.path.join(root, "workspace", ids[i], "signac_statepoint.json")
+                if os.path.isfile(fn):
+                    os.remove(fn)
+                cl.add("lost_spfile_reinit")
+                try:
+                    job.init()
+                    with open(fn, "rb") as f:
+                        parsed = json.loads(f.read().decode())
+                    if oracle.canon(parsed) != oracle.canon(sps[i]):
+                        mms.append(Mismatch("file_exact", f"re-created state point file of {sps[i]!r} parses to {parsed!r}"))
+                except Exception as e:
+                    mms.append(Mismatch("reinit_after_loss", f"init() after the state point file of {sps[i]!r} was lost: {type(e).__name__}: {e}"))
+        elif name == "relocate_symlink":
+            # a job directory moved elsewhere and symlinked back is still that job
+            if i in inited:
+                d = os.path.join(root, "workspace", ids[i])
+                if not os.path.islink(d):
+                    store = os.path.join(root, "elsewhere")
+                    os.makedirs(store, exist_ok=True)
+                    os.replace(d, os.path.join(store, ids[i]))
+                    os.symlink(os.path.join(store, ids[i]), d)
+                    cl.add("symlinked_job_dir")
         elif name == "lookup_uninit":
             # a job that was only opened (and maybe read), never initialised, is unknown by id -- also
             # to the Project object it was opened with
@@ -316,6 +347,7 @@ def run(ctx):
     fam = families()
     if ctx.worker == 0:
         ctx.apply({"sps": [{"k": i} for i in fam[4][0]] + [{"k": i} for i in fam[2][0]], "ops": [{"op": "open", "i": 0}, {"op": "mutate_caller", "i": 0}, {"op": "init", "i": 0}, {"op": "reinit", "i": 0}, {"op": "fresh", "i": 0}, {"op": "init", "i": 1}], "final_init": True})
+        ctx.apply({"sps": [{"k": 1}, {"k": 2}, {"k": 3}], "ops": [{"op": "init", "i": 0}, {"op": "init", "i": 1}, {"op": "relocate_symlink", "i": 0}, {"op": "lost_spfile_reinit", "i": 1}, {"op": "reinit", "i": 0}, {"op": "fresh", "i": 0}], "final_init": True})
         ctx.apply({"sps": [{}, {"k": 1}], "ops": [{"op": "open", "i": 0}, {"op": "access_sp", "i": 1}, {"op": "lookup_uninit", "i": 1}, {"op": "init", "i": 0}, {"op": "fresh", "i": 0}, {"op": "access_sp", "i": 0}], "final_init": False})
         ctx.apply({"sps": [{"a": 1.0, "b": [True, None, {"c": "é"}]}, {"a": 1}, {"a": True}, {}], "ops": [{"op": "init", "i": 0}, {"op": "init", "i": 1}, {"op": "init", "i": 2}, {"op": "init", "i": 3}, {"op": "reinit", "i": 0}], "final_init": False})
     drive(ctx, cases(), 400 if ctx.tier == "quick" else 1500, ctx.apply)
